@@ -221,3 +221,42 @@ func (o *verifOut) drain(tag string) {
 	verifAssert(n == 0, tag+": records left in the Persistence after every acknowledgement arrived")
 	o.store.faults = saved
 }
+
+// resumes reports whether c would resend exactly q1 and q2 (content, order, stage, identifiers).
+func verifResumes(c *Client, q1, q2 []verifEntry) bool {
+	obs := &verifConn{}
+	s1 := <-c.atLeastOnce.seqSem
+	err := c.resend(obs, c.orderedTxs.Acked, &s1, atLeastOnceIDSpace)
+	c.atLeastOnce.seqSem <- s1
+	if err != nil {
+		return false
+	}
+	w1 := verifWireOf(q1)
+	if len(obs.wlog) != len(w1) {
+		return false
+	}
+	if !verifBytesEq(obs.wlog, w1) {
+		return false
+	}
+	obs2 := &verifConn{}
+	s2 := <-c.exactlyOnce.seqSem
+	err = c.resend(obs2, c.orderedTxs.Completed, &s2, exactlyOnceIDSpace)
+	c.exactlyOnce.seqSem <- s2
+	if err != nil {
+		return false
+	}
+	w2 := verifWireOf(q2)
+	if len(obs2.wlog) != len(w2) {
+		return false
+	}
+	return verifBytesEq(obs2.wlog, w2)
+}
+
+func verifAllWritten(q []verifEntry) []verifEntry {
+	out := append([]verifEntry{}, q...)
+	for i := range out {
+		out[i].written = true // adopted clients mark every PUBLISH as duplicate (documented)
+		out[i].ex = nil
+	}
+	return out
+}
